@@ -433,16 +433,37 @@ def r7_3(run):
     # (e) stage functions drop internal data unless reuse requested
     internal_data_lifecycle(run)
     # (f) init_options couples reuse to the update option
-    io = ix.func(PS + ".init_options")
-    ok = False
-    for n in own_walk(io.node):
-        if isinstance(n, ast.Assign) and "reuse_internal_data" in U(n.targets[0]) and isinstance(n.value, ast.Constant) \
-                and n.value.value is False:
-            pc = path_condition(io.node, n, parents(io.node))
-            ok = any("only_update_hydraulic_matrix" in l[0] and not l[1] for l in pc)
-    run.ob("init_options|reuse-only-with-update-option", ok,
-           "init_options forces reuse_internal_data=False when only_update_hydraulic_matrix is off", run.where(io, io.node))
+    reuse_coupling(run)
     run.floor(12)
 
 
-RULES = [("R7.1", r7_1), ("R7.2", r7_2), ("R7.3", r7_3)]
+def reuse_coupling(run):
+    """reuse_internal_data is the user's choice, narrowed only: init_options may switch it *off* (when the matrix-update option is off)
+    and never on -- with reuse on, a call starts from the internal data an earlier call left on the net"""
+    from ..arrnf import ANF, C, walk, norm_cond, show as tshow
+    ix = run.index
+    io = ix.func(PS + ".init_options")
+    run.analysed(io)
+    r = ANF(ix, io, param_alias={io.params()[0]: "net"}).run()
+    st = [e for e in r.stores() if e.index == (C("reuse_internal_data"),)]
+    ok = bool(st)
+    why = None
+    for e in st:
+        off_only = e.value == C(False)
+        guarded = any(any(x == C("only_update_hydraulic_matrix") for x in walk(c_)) and not norm_cond(c_, p_)[1] for c_, p_ in e.cond)
+        if not (off_only and guarded):
+            ok = False
+            why = "stores %s under %s" % (tshow(e.value)[:60], [(tshow(c_)[:50], p_) for c_, p_ in e.cond][-2:])
+    run.ob("init_options|reuse-only-with-update-option", ok,
+           "init_options only forces reuse_internal_data=False, and only when only_update_hydraulic_matrix is off", run.where(io, io.node), detail=why)
+
+
+def r7_4(run):
+    """the group sum is one of the places where the two engines take different paths: the numba path casts the keys and uses a dense
+    kernel, the numpy path must sort keys and values together before it takes the group boundaries (shared with C06 R6.3); an
+    unsorted numpy pass returns a key twice and the engines disagree"""
+    from .c06 import r6_3
+    r6_3(run)
+
+
+RULES = [("R7.1", r7_1), ("R7.2", r7_2), ("R7.3", r7_3), ("R7.4", r7_4)]
